@@ -453,7 +453,6 @@ class Function:
                         await ast_ctx.call_func(callback, None, *args, **kwargs)
                     except Exception as e:
                         ast_ctx.log_exception(e)
-                        break
             if task in cls.unique_task2name:
                 for name in cls.unique_task2name[task]:
                     del cls.unique_name2task[name]
